@@ -161,6 +161,14 @@ class SymVC:
             extents = (extents,)
         self.c.add_forall(tuple(extents), lambda *idx: fn(*idx), name)
 
+    def assume_lemma(self, name, cond=None, extents=None, fn=None):
+        """a mathematical fact used without proof: assumed AND listed among the evidence's unchecked assumptions"""
+        N.USED.add("lemma (not proved here): " + name)
+        if cond is not None:
+            self.c.assume(cond)
+        if fn is not None:
+            self.assume_forall(extents, fn, name)
+
     def instantiate_at(self, *terms, ext=None):
         for t in terms:
             self.c.add_index_term(t, ext)
@@ -631,6 +639,9 @@ class NatVC:
         for idx in itertools.product(*[range(int(n)) for n in extents]):
             if not bool(fn(*idx)):
                 raise SkipCase()
+
+    def assume_lemma(self, name, cond=None, extents=None, fn=None):
+        pass
 
     def instantiate_at(self, *terms, ext=None):
         pass
